@@ -112,7 +112,11 @@ func (p *exprPrinter) parts(parts []any, quoted bool) string {
 			m := mark(pt["strip"])
 			inner := *p
 			inner.here = false
-			sb.WriteString("%{" + m + " for " + pt["v"].(string) + " in " + inner.child(nodeOf(pt["coll"]), 0) + " " + m + "}")
+			vars := pt["v"].(string)
+			if kv, _ := pt["kv"].(string); kv != "" {
+				vars = kv + ", " + vars
+			}
+			sb.WriteString("%{" + m + " for " + vars + " in " + inner.child(nodeOf(pt["coll"]), 0) + " " + m + "}")
 			sb.WriteString(p.parts(listOf(pt["body"]), quoted))
 			sb.WriteString("%{" + m + " endfor " + m + "}")
 		}
